@@ -257,6 +257,14 @@ class SSHAgentClient:
             except (OSError, EOFError, PacketDecodeError) as exc:
                 await self._cleanup()
                 raise ValueError(str(exc)) from None
+            except asyncio.CancelledError:
+                # The response to this request may still arrive. Agent
+                # responses are matched to requests by position only,
+                # so this connection can't be handed to the next caller.
+                self.close()
+                self._reader = None
+                self._writer = None
+                raise
 
     async def get_keys(self, identities: Optional[Sequence[bytes]] = None) -> \
             Sequence[SSHKeyPair]:
